@@ -78,6 +78,29 @@ impl StrategyConfig {
     }
 }
 
+#[cfg(anysystem_verif)]
+impl StrategyConfig {
+    /// Verification hook: evaluates the configured invariant.
+    pub fn verif_default_invariant_is_err(&mut self, state: &McState) -> bool {
+        (self.invariant)(state).is_err()
+    }
+
+    /// Verification hook: evaluates the configured goal.
+    pub fn verif_default_goal_is_some(&mut self, state: &McState) -> bool {
+        (self.goal)(state).is_some()
+    }
+
+    /// Verification hook: evaluates the configured prune.
+    pub fn verif_default_prune_is_some(&mut self, state: &McState) -> bool {
+        (self.prune)(state).is_some()
+    }
+
+    /// Verification hook: evaluates the configured collect.
+    pub fn verif_default_collect(&mut self, state: &McState) -> bool {
+        (self.collect)(state)
+    }
+}
+
 /// Defines the mode in which the model checking algorithm is executing.
 #[derive(Clone, PartialEq)]
 pub enum ExecutionMode {
